@@ -429,6 +429,16 @@ CHECKS['C16']['note'] = (
     'NumPy basic slicing/sum/diff/arange, apply_on_boundary and np.pad (its index formulas are compared with the Lean definitions '
     'each run) trusted; arithmetic exact; offsets are naturals in the model (negative offsets only as malformed calls).')
 
+CHECKS['C20']['text'] = (
+    '32 theorems (model level, unbounded in shape/axes/nesting): eq equivalence and eq => equal hash, FULL, for weightings, '
+    'interval products (all and mixed dimensions), grids (grid_interior_coordinate_matters), partitions, tensor/discretized/'
+    'nested product spaces (space_eq_equivalence, space_hash_respects_eq), FiniteSet (finite_eq_hash), SetUnion/'
+    'SetIntersection/CartesianProduct (composite_eq_equivalence, composite_hash_respects_eq for duplicate-free member tuples); '
+    'mem_iff_space_eq; element() decision logic and values; astype / real_complex_involution (dtype tables by translator) / '
+    'byaxis / product-space astype (pspace_astype_mixed_dtype_casts) and indexing descriptors. Partial: product-space indexing '
+    'keeps only constant weightings (C20-F4 open, counterexample proved). Tested only: hash of composites containing '
+    'FiniteSets, element indexing vs asarray (C20-F6 open), byaxis_in.')
+
 NOT_YET = {}
 
 
